@@ -416,17 +416,28 @@ fn substring(
 ) -> error::Result<model::Value> {
     let mut args = args.iter();
     let v = String::try_from(args.next().unwrap())?;
-    let s = f64::try_from(args.next().unwrap())?.round() as usize - 1;
-    let c = if let Some(v) = args.next() {
-        Some(f64::try_from(v)?.round() as usize)
+    let start = round_half_up(f64::try_from(args.next().unwrap())?);
+    let end = if let Some(v) = args.next() {
+        Some(start + round_half_up(f64::try_from(v)?))
     } else {
         None
     };
-    let (_, mut r) = v.split_at(s);
-    if let Some(c) = c {
-        (r, _) = r.split_at(c);
-    }
-    Ok(model::Value::Text(r.to_string()))
+    // The character at position p (counted from 1) is kept if `start <= p` and `p < end`;
+    // comparisons with NaN are false.
+    let r = v
+        .chars()
+        .enumerate()
+        .filter(|(i, _)| {
+            let p = (i + 1) as f64;
+            p >= start && end.map(|e| p < e).unwrap_or(true)
+        })
+        .map(|(_, c)| c)
+        .collect::<String>();
+    Ok(model::Value::Text(r))
+}
+
+fn round_half_up(value: f64) -> f64 {
+    (value + 0.5).floor()
 }
 
 fn string_length(
